@@ -5,7 +5,7 @@ import random
 import sqlite3
 import time
 
-from common import gZ, glist
+from common import gZ, gbool, glist
 
 DAY = 86400
 
@@ -130,7 +130,7 @@ def run_case(case, workdir):
                     except sqlite3.Error:
                         pass
                     db.close()
-                truth.append((lo, nxt))
+                truth.append((lo, nxt, bool(present)))
                 try:
                     cons.seek(op[1])
                     # 4th field: the sought offset lies strictly inside the retained range but is absent (a hole)
@@ -267,4 +267,4 @@ def case_to_gallina(case, obs):
             outs.extend(["ONone"] * (ob[2] if len(ob) > 2 else 0))
             outs.append("(OIter " + glist(f"({gZ(o)},{gZ(p)})" for o, p in ob[1]) + ")")
     gp = glist("(" + glist(f"({gZ(i)},{gZ(a)})" for i, a in b) + "," + glist(gZ(i) for i in a2) + ")" for b, a2 in purges)
-    return f"(BCase {glist(ops)} {glist(outs)} " + glist(f"({gZ(a)},{gZ(b)})" for a, b in truth) + f" {gp})"
+    return f"(BCase {glist(ops)} {glist(outs)} " + glist(f"({gZ(a)},{gZ(b)},{gbool(p)})" for a, b, p in truth) + f" {gp})"
